@@ -498,7 +498,14 @@ pub fn replay(scen: &'static Scenario, path: &[Action], verbose: bool, hook: Opt
         r.died_at = Some(0);
         return r;
     };
+    if let Some(t) = ctx.trace.as_mut() {
+        r.trace.push("prefix:".to_string());
+        r.trace.append(t);
+    }
     for v in ctx.viol.drain(..) {
+        if verbose {
+            r.trace.push(format!("  !! (prefix) {} {}: {}", v.prop, v.kind, v.detail));
+        }
         r.viol.push((0, v));
     }
     let mut acts = vec![];
